@@ -14,7 +14,8 @@ body is replaced by a body of another kind, the request carries the content type
 (`copy_content_type_from_body` only fills a gap).  Hence the full statement `C14_full` is false (`C14_full_false`);
 `C14_sound_partial` is the strongest true restriction and `stale_content_type_exact` pins the defect.
 A second defect (`unknown-length-body-dropped`: a body of unknown length was not sent) was repaired in /repo fb3ba05; the
-model follows the repaired code and the region is covered by the theorems again (`unknown_length_body_sent`).
+model follows the repaired code and reader bodies are covered by the theorems for every chunking and declared length
+(`reader_body_exact`, `reader_chunking_irrelevant`, `reader_body_complete`).
 The order in which the headers are emitted (sorted by name since /repo cda2127) is modelled (`emitHeaders`) but is not
 C14's concern — C11 proves it independent of the hash-map iteration order.
 -/
@@ -35,15 +36,12 @@ theorem buildRequest_closed (c : ReqCase) (hd : inDomain c.calls = true) :
     ∃ hs, buildRequest c = .req 1 (upper c.method) (expectedUrl c) hs (expectedBody c.calls) ∧
       ∀ k, valuesFor hs k = modelValues c.calls k := by
   obtain ⟨r, hr⟩ := foldCalls_some_of_inDomain c.calls
-    { method := upper c.method, url := c.url, headers := [], body := [], lenKnown := true } hd
-  obtain ⟨hm, hu, hb, hlk, hk, he⟩ := foldCalls_spec c.calls _ r hr
+    { method := upper c.method, url := c.url, headers := [], body := [], len := some 0 } hd
+  obtain ⟨hm, hu, hb, hlk, hz, hk, he⟩ := foldCalls_spec c.calls _ r hr
   have hkl : KeysLower r.headers := hk (by intro e he; cases he)
-  simp only at hm hu hb hlk
-  have hlen : r.lenKnown = !lastBodyIsReader c.calls := by
-    rw [hlk]
-    cases hl : lastBody c.calls with
-    | none => simp [lastBodyIsReader_of_none _ hl]
-    | some x => rfl
+  simp only at hm hu hb hlk hz
+  -- a recorded length of 0 means there is nothing to read
+  have hzero : r.len = some 0 → r.body = [] := hz (by simp)
   -- entries of the folded request
   have hent : ∀ n, entry r.headers n =
       match lastExplicit n c.calls with
@@ -72,14 +70,14 @@ theorem buildRequest_closed (c : ReqCase) (hd : inDomain c.calls = true) :
   have hproto : (intoProtocol r).headers = r.headers ∧ (intoProtocol r).body = r.body ∧
       (intoProtocol r).url = r.url ∧ (intoProtocol r).method = r.method := by
     unfold intoProtocol
-    by_cases hcond : (r.lenKnown && r.body.isEmpty) = true
-    · simp [hcond]
+    by_cases hcond : (r.len == some 0) = true
+    · have hl0 : r.len = some 0 := by simpa using hcond
+      simp [hcond, hzero hl0]
     · simp only [hcond, Bool.false_eq_true, if_false, and_true]
       have hlb : lastBody c.calls ≠ none := by
         intro hlb
         apply hcond
-        rw [hlen, hb, hlb, lastBodyIsReader_of_none _ hlb]
-        rfl
+        rw [hlk hlb]; rfl
       simp [copyContentType, hct hlb]
   refine ⟨emitHeaders r.headers, ?_, ?_⟩
   · simp only [buildRequest, hr, hproto.1, hproto.2.1, hproto.2.2.1, hproto.2.2.2, hm, hu, hb]
@@ -240,12 +238,48 @@ theorem stale_content_type_exact (c : ReqCase) (hd : inDomain c.calls = true)
       cases lastExplicit k c.calls <;> simp [hk]
   simp [hstale]
 
-/-- Repaired by /repo fb3ba05 (was finding `unknown-length-body-dropped`): a body handed over as a reader of unknown
-    length is sent like any other. -/
-theorem unknown_length_body_sent (m u : Bytes) (b : Bytes) :
-    ∃ hs, buildRequest ⟨m, u, [Call.bodyReader b]⟩ = .req 1 (upper m) u hs b := by
-  obtain ⟨hs, h, _⟩ := buildRequest_closed ⟨m, u, [Call.bodyReader b]⟩ (by simp [inDomain])
+/-- **Reader bodies, any chunking**: a body handed over as `Body::from_reader(reader, declared)` reaches the shell as
+    exactly what reading it to its end yields — the concatenation of the pieces the reader hands out (cut at the declared
+    length, if one is declared) — however the reader chunks its data, whether or not the length is known in advance
+    (the `None` case was defect `unknown-length-body-dropped`, repaired by /repo fb3ba05). -/
+theorem reader_body_exact (m u : Bytes) (chunks : List Bytes) (declared : Option Nat) :
+    ∃ hs, buildRequest ⟨m, u, [Call.bodyReader chunks declared]⟩ = .req 1 (upper m) u hs (readerContent chunks declared) := by
+  obtain ⟨hs, h, _⟩ := buildRequest_closed ⟨m, u, [Call.bodyReader chunks declared]⟩ (by simp [inDomain])
   exact ⟨hs, by simpa [expectedUrl, lastQuery, expectedBody, lastBody, bodyOf] using h⟩
+
+/-- … in particular the request does not depend on the chunking at all: two readers whose pieces concatenate to the
+    same data give the same request, within any list of builder calls. -/
+theorem reader_chunking_irrelevant (c₁ c₂ : List Bytes) (declared : Option Nat) (h : c₁.flatten = c₂.flatten)
+    (m u : Bytes) (before after : List Call) :
+    buildRequest ⟨m, u, before ++ [Call.bodyReader c₁ declared] ++ after⟩ =
+    buildRequest ⟨m, u, before ++ [Call.bodyReader c₂ declared] ++ after⟩ := by
+  have hc : readerContent c₁ declared = readerContent c₂ declared := by
+    cases declared <;> simp [readerContent, h]
+  have happly : ∀ r : Req, applyCall r (Call.bodyReader c₁ declared) = applyCall r (Call.bodyReader c₂ declared) := by
+    intro r; simp [applyCall, hc]
+  have hfold : ∀ (l : List Call) (r : Req),
+      foldCalls r (l ++ [Call.bodyReader c₁ declared] ++ after) = foldCalls r (l ++ [Call.bodyReader c₂ declared] ++ after) := by
+    intro l
+    induction l with
+    | nil => intro r; simp only [List.nil_append, List.cons_append, foldCalls, happly]
+    | cons x t ih =>
+      intro r
+      simp only [List.cons_append, foldCalls]
+      cases applyCall r x with
+      | none => rfl
+      | some r' => exact ih r'
+  simp only [buildRequest, hfold]
+
+/-- a complete body (declared length = actual length, or none declared) arrives complete -/
+theorem reader_body_complete (m u : Bytes) (chunks : List Bytes) (declared : Option Nat)
+    (hd : declared = none ∨ declared = some chunks.flatten.length) :
+    ∃ hs, buildRequest ⟨m, u, [Call.bodyReader chunks declared]⟩ = .req 1 (upper m) u hs chunks.flatten := by
+  obtain ⟨hs, h⟩ := reader_body_exact m u chunks declared
+  refine ⟨hs, ?_⟩
+  rw [h]
+  rcases hd with rfl | rfl
+  · rfl
+  · simp only [readerContent, List.take_length]
 
 /-! non-vacuity: concrete requests through the model and the oracle -/
 
